@@ -7,16 +7,17 @@
 
   A Rust `String` is its list of UTF-8 bytes (`utf8Encode` of the scalars); `len`, `find`,
   `rfind` and slicing count BYTES.  `uppercase`/`lowercase` are `str::to_uppercase` /
-  `str::to_lowercase` over all of Unicode (Sdk/CaseMap.lean, tables UnicodeCase.lean).  Outside
-  the modelled domain (declared, answered `unmodelled`): `less_than`/`greater_than` on
-  literals that are not plain decimals of at most 15 digits (exponents, inf, nan, long
-  mantissas: IEEE-754 rounding is not modelled).  `calc` is modelled in Sdk/Calc.lean.
+  `str::to_lowercase` over all of Unicode (Sdk/CaseMap.lean, tables UnicodeCase.lean).
+  `less_than`/`greater_than` answer for EVERY argument pair: `str::parse::<f64>` is modelled exactly
+  (Sdk/F64.lean: grammar of `dec2flt`, correctly rounded IEEE-754 binary64 with subnormals,
+  overflow, signed zeros, inf/nan, IEEE comparison).  `calc` is modelled in Sdk/Calc.lean.
   Imports only model files: linked into the `driver` executable.
 -/
 import DuckModel.Types
 import DuckModel.Chars
 import DuckModel.Sdk.Utf8
 import DuckModel.Sdk.CaseMap
+import DuckModel.Sdk.F64
 
 namespace Duck.Strings
 open Duck
@@ -31,7 +32,7 @@ inductive Out
   | ints (l : List Int)        -- Continue(Some(handle)) of a list of 64 bit numbers
   | err                        -- Error(_)
   | panic                      -- the process unwinds (never produced by the repaired code)
-  | unmodelled                 -- outside the modelled domain (declared above)
+  | unmodelled                 -- outside the modelled domain (no command of this file answers it any more)
   deriving DecidableEq, Repr
 
 abbrev enc (s : Str) : Bytes := utf8Encode s
@@ -170,72 +171,15 @@ def isAscii (s : Str) : Bool := s.all (fun c => c.toNat < 128)
 /-- `(start..end)` of `i64` -/
 def rangeList (a b : Int) : List Int := (List.range (b - a).toNat).map (fun (i : Nat) => a + (i : Int))
 
-/-! ### `less_than` / `greater_than`: `str::parse::<f64>` on plain decimal literals -/
+/-! ### `less_than` / `greater_than`: `str::parse::<f64>` on both arguments (Sdk/F64.lean: the
+     grammar of `dec2flt`, correctly rounded binary64, IEEE comparison), then `<` / `>` -/
 
-/-- the value `(-1)^neg * mant / 10^scale`, written with `ndigits` mantissa digits -/
-structure Dec where
-  neg : Bool
-  mant : Nat
-  scale : Nat
-  ndigits : Nat
-  deriving DecidableEq, Repr
-
-inductive F64Lit
-  | dec (d : Dec)   -- [+-] digits [. digits] with at least one digit
-  | other           -- accepted by Rust, not modelled: exponent form, inf, infinity, nan
-  | invalid         -- rejected by `str::parse::<f64>`
-  deriving DecidableEq, Repr
-
-def isInfNan (body : Str) : Bool :=
-  let l := asciiLower body
-  l == "nan".toList || l == "inf".toList || l == "infinity".toList
-
-/-- the grammar of `core::num::dec2flt`: sign, `parse_number`, else `parse_inf_nan` -/
-def classifyF64 (s : Str) : F64Lit :=
-  match s with
-  | [] => .invalid
-  | c :: r =>
-    let body := if c = '-' ∨ c = '+' then r else c :: r
-    if body = [] then .invalid
-    else
-      let ip := (body.takeWhile isDigit, body.dropWhile isDigit)
-      let fp : List Char × List Char :=
-        match ip.2 with
-        | d :: r1 => if d = '.' then (r1.takeWhile isDigit, r1.dropWhile isDigit) else ([], ip.2)
-        | [] => ([], [])
-      if ip.1.length + fp.1.length = 0 then
-        (if isInfNan body then .other else .invalid)
-      else
-        match fp.2 with
-        | [] => .dec { neg := c = '-', mant := digitsVal (ip.1 ++ fp.1), scale := fp.1.length,
-                       ndigits := ip.1.length + fp.1.length }
-        | e :: r3 =>
-          if e = 'e' ∨ e = 'E' then
-            let r4 := match r3 with
-              | x :: r' => if x = '-' ∨ x = '+' then r' else r3
-              | [] => r3
-            let ed := (r4.takeWhile isDigit, r4.dropWhile isDigit)
-            if ed.1 ≠ [] ∧ ed.2 = [] then .other else .invalid
-          else .invalid
-
-def Dec.num (d : Dec) : Int := if d.neg then - (d.mant : Int) else d.mant
-
-/-- exact rational order by cross-multiplication -/
-def Dec.lt (a b : Dec) : Bool := decide (a.num * (10 : Int) ^ b.scale < b.num * (10 : Int) ^ a.scale)
-
-/-- up to 15 mantissa digits a decimal is determined by its nearest double and rounding is
-    monotone, so `f64` order is rational order (assumption, not proved: IEEE-754 is outside
-    the model) -/
-def Dec.small (d : Dec) : Bool := d.ndigits ≤ 15
-
-def compareWith (f : Dec → Dec → Bool) (args : List Str) : Out :=
+def compareWith (f : F64.F64 → F64.F64 → Bool) (args : List Str) : Out :=
   match args with
   | [a, b] =>
-    match classifyF64 a, classifyF64 b with
-    | .invalid, _ => .err
-    | _, .invalid => .err
-    | .dec x, .dec y => if x.small && y.small then .bool (f x y) else .unmodelled
-    | _, _ => .unmodelled
+    match F64.parseF64 a, F64.parseF64 b with
+    | some x, some y => .bool (f x y)
+    | _, _ => .err
   | _ => .err
 
 /-! ### the commands -/
@@ -316,8 +260,8 @@ def range (args : List Str) : Out :=
     | _, _ => .err
   | _ => .err
 
-def lessThan (args : List Str) : Out := compareWith (fun x y => x.lt y) args
-def greaterThan (args : List Str) : Out := compareWith (fun x y => y.lt x) args
+def lessThan (args : List Str) : Out := compareWith F64.F64.lt args
+def greaterThan (args : List Str) : Out := compareWith F64.F64.gt args
 
 /-- dispatch by command name -/
 def run (cmd : String) (args : List Str) : Option Out :=
